@@ -151,3 +151,59 @@ func ZZLifecycle4() { zzLifecycle(4) }
 
 // ZZLifecycle6: 6 events.
 func ZZLifecycle6() { zzLifecycle(6) }
+
+// ZZStopAfterDownloadOnce: a torrent added with the stop-after-download option
+// (complete resume bitfield, or completing through verification): it stops by
+// itself when the download is complete and the option is then cleared in the
+// resume database - once. A later start command must take effect: the torrent
+// seeds and does not stop by itself again, and the option is not cleared twice.
+//
+//vrt:cover ZZStopAfterDownloadOnce seeding after the second start
+func ZZStopAfterDownloadOnce() {
+	info := metainfo.ZZConcreteInfo(zzPieceLen, zzNumPieces, []int64{zzPieceLen * zzNumPieces}, false)
+	bf := bitfield.New(zzNumPieces)
+	bf.Set(0)
+	bf.Set(1)
+	sto := &zzStorage{}
+	t := zzNewTorrent(info, bf, sto)
+	t.stopAfterDownload = true
+	countCleared := func() int {
+		n := 0
+		for _, l := range zzLog {
+			if l.kind == "stop-after-download" {
+				n++
+			}
+		}
+		return n
+	}
+	for round := 0; round < 2; round++ {
+		t.start()
+		vrt.Assert(t.allocator != nil, "start did not begin allocation")
+		if t.allocator == nil {
+			return
+		}
+		al := t.allocator
+		al.HasExisting = true
+		for _, f := range t.info.Files {
+			sf, _, _ := sto.Open(f.Path, f.Length)
+			al.Files = append(al.Files, allocator.File{Storage: sf, Name: f.Path, Padding: f.Padding})
+		}
+		t.handleAllocationDone(al)
+		if t.verifier != nil {
+			ve := t.verifier
+			ve.Bitfield = bitfield.New(zzNumPieces)
+			ve.Bitfield.Set(0)
+			ve.Bitfield.Set(1)
+			t.handleVerificationDone(ve)
+		}
+		if round == 0 {
+			vrt.Assert(t.status() == Stopping && countCleared() == 1, "complete torrent with stop-after-download did not stop by itself (once)")
+			t.handleStopped()
+			vrt.Assert(t.status() == Stopped, "not stopped")
+		} else {
+			vrt.Assert(countCleared() == 1, "stop-after-download cleared twice in the resume database")
+			vrt.Cover(t.status() == Seeding, "seeding after the second start")
+			vrt.Assert(t.status() == Seeding, "start command undone: the torrent stopped by itself again although stop-after-download was already consumed")
+		}
+	}
+}
